@@ -83,6 +83,8 @@ import Pandora.Spec.C16
 import Pandora.Proofs.C16
 import Pandora.Proofs.C16Locals
 import Pandora.Proofs.C16Src
+import Pandora.Model.C16Text
+import Pandora.Proofs.C16Text
 import Pandora.Bridge.HclYaml
 
 namespace Pandora.Props.C16
@@ -839,5 +841,102 @@ example :
       some (.map [("Requests", .seq [.map [("Name", .str "r")]])]) ∧
     decode brokenBody (yamlDoc brokenBody (.map [("request", .seq [.map [("name", .str "r"), ("body", .str "")]])])) =
       some (.map [("Requests", .seq [.map [("Name", .str "r"), ("Body", .str "")]])]) := ⟨rfl, rfl⟩
+
+/-! ### round 6: how a file is SAVED — line terminators are not part of the description -/
+
+/-- regenerated: between `io.ReadAll` and `ParseHCL` the HCL front-end replaces CR LF by LF and does nothing else to the
+text; the YAML front-end hands the text to `DecodeMap` as it was read (yaml.v2 — trusted — reads every line break of a
+block scalar as LF) -/
+theorem C16_text_steps :
+    Pandora.Bridge.HclYaml.hclSteps = some [.replaceAll "\r\n" "\n"] ∧ Pandora.Bridge.HclYaml.yamlSteps = some [] :=
+  Pandora.Bridge.HclYaml.text_steps
+
+/-- that step is `crlfToLf` (the generic model of `strings.ReplaceAll`, leftmost and non-overlapping, in closed form) -/
+theorem C16_hcl_text_normalised (t : List Char) : applySteps [.replaceAll "\r\n" "\n"] t = crlfToLf t := by
+  simp only [applySteps, applyStep]
+  exact replaceAll_crlf t
+
+/-- a front-end whose text steps are `steps` reads a description saved with ANY subset of its line terminators as CR LF
+like the description saved with LF -/
+def C16_line_endings_statement (steps : List TextStep) : Prop :=
+  ∀ (lex : List Char → Option (List Char)) (t : List Char) (fl : List Bool), '\r' ∉ t →
+    frontOnText steps lex (saveMixed fl t) = frontOnText steps lex t
+
+/-- true of the steps of the current `ParseHCLFile` -/
+theorem C16_line_endings : C16_line_endings_statement [.replaceAll "\r\n" "\n"] := by
+  intro lex t fl h
+  unfold frontOnText
+  rw [C16_hcl_text_normalised, C16_hcl_text_normalised, crlfToLf_saveMixed fl t h, crlfToLf_id t h]
+
+/-- FALSE of a front-end that hands the text to hcl as it was read (the tree before `fix: scenario HCL front-end reads a
+file saved with CRLF line endings …`): hcl keeps the CR inside a heredoc -/
+theorem C16_line_endings_counterexample : ¬ C16_line_endings_statement [] := by
+  intro h
+  have := h some "a\n".toList [true] (by decide)
+  simp [frontOnText, applySteps, saveMixed] at this
+
+/-- for the regenerated steps of the current source -/
+theorem C16_line_endings_current (steps : List TextStep) (h : Pandora.Bridge.HclYaml.hclSteps = some steps) :
+    C16_line_endings_statement steps := by
+  rw [C16_text_steps.1] at h
+  cases h
+  exact C16_line_endings
+
+/-- a file saved with CR LF THROUGHOUT is read back as the text, whatever the text contains (also carriage returns and
+CR LF pairs of its own) -/
+theorem C16_crlf_file (t : List Char) : applySteps [.replaceAll "\r\n" "\n"] (toCrlf t) = t := by
+  rw [C16_hcl_text_normalised, crlfToLf_toCrlf]
+
+/-- with the I/O in front: `ReadAmmoConfig` answers the same for the HCL file saved with LF and saved with any subset
+of its line terminators as CR LF, under any fault plans of the same kind (the two files differ in length, so the
+offsets of a read fault differ — a fault at any offset refuses either) -/
+theorem C16_saved_file_same_answer {α : Type} (lex : List Char → Option α) (t : List Char) (fl : List Bool)
+    (h : '\r' ∉ t) (p q : IOPlan) (hpq : p.clean = q.clean) :
+    readAmmoConfig true (frontOnText [.replaceAll "\r\n" "\n"] lex) (saveMixed fl t) p =
+      readAmmoConfig true (frontOnText [.replaceAll "\r\n" "\n"] lex) t q := by
+  cases hp : p.clean with
+  | true =>
+    rw [C16_io_clean_transparent _ _ _ p hp, C16_io_clean_transparent _ _ _ q (hpq ▸ hp)]
+    unfold frontOnText
+    rw [C16_hcl_text_normalised, C16_hcl_text_normalised, crlfToLf_saveMixed fl t h, crlfToLf_id t h]
+  | false => exact C16_io_fault_twins _ _ _ _ p q hp (hpq ▸ hp)
+
+/-- end to end: the HCL rendering saved with CR LF line terminators (any subset) and the YAML rendering of the
+description it denotes get the same answer from `ReadAmmoConfig` (`lexH` / `lexY`: what hcl / yaml.v2 make of the text
+they are handed — trusted libraries: any functions) -/
+theorem C16_files_agree_saved (lexH : List Char → Option HclFile) (lexY : List Char → Option V)
+    (th ty : List Char) (fl : List Bool) (hcr : '\r' ∉ th) (f : HclFile) (d : V)
+    (hl : lexH th = some f) (hy : lexY ty = some d)
+    (hd : hclDescription current fns f = some d) (hm : hasMergeKey d = false)
+    (p q : IOPlan) (hpq : p.clean = q.clean) :
+    readAmmoConfig true (frontOnText [.replaceAll "\r\n" "\n"] fun t => (lexH t).map (hclFilePath current fns))
+        (saveMixed fl th) p =
+      readAmmoConfig true (fun t => (lexY t).map (yamlPath current)) ty q := by
+  rw [C16_saved_file_same_answer _ th fl hcr p p rfl]
+  have h0 : ∀ x, frontOnText [.replaceAll "\r\n" "\n"] (fun t => (lexH t).map (hclFilePath current fns)) x =
+      (fun t => (lexH (crlfToLf t)).map (hclFilePath current fns)) x := by
+    intro x
+    unfold frontOnText
+    rw [C16_hcl_text_normalised]
+  rw [funext h0]
+  exact C16_files_agree_under_io (fun t => lexH (crlfToLf t)) lexY th ty f d (by rw [crlfToLf_id th hcr]; exact hl) hy hd hm p q hpq
+
+/-- regenerated: `ReadAmmoConfig` treats the errors of Open / Stat / Close as the model `readAmmoConfig` does — each
+refuses the file, the Close error through the named result which the deferred closure writes on every path -/
+theorem C16_read_flow : Pandora.Bridge.HclYaml.readFlowStrict = true := Pandora.Bridge.HclYaml.read_flow
+
+/-- non-vacuity: a two-line heredoc body saved with CR LF, with the second terminator only, and as it is -/
+example : saveMixed [true, true] "<<EOT\nline\nEOT".toList = "<<EOT\r\nline\r\nEOT".toList ∧
+    saveMixed [false, true] "a\nb\nc\n".toList = "a\nb\r\nc\n".toList ∧
+    crlfToLf "a\nb\r\nc\n".toList = "a\nb\nc\n".toList ∧ '\r' ∉ "a\nb\nc\n".toList := by decide
+/-- `strings.ReplaceAll` is leftmost and non-overlapping: CR CR LF loses one CR only; a lone CR stays -/
+example : replaceAll "\r\n".toList "\n".toList "a\r\r\nb\rc".toList = "a\r\nb\rc".toList ∧
+    replaceAll "aa".toList "b".toList "aaa".toList = "ba".toList := by decide
+/-- `stepsOf` refuses what it does not know: a trim, a replacement of an empty string, a chain that does not start at
+`io.ReadAll` -/
+example : stepsOf [("io.ReadAll", []), ("strings.TrimSpace", [])] = none ∧
+    stepsOf [("io.ReadAll", []), ("strings.ReplaceAll", ["", "x"])] = none ∧
+    stepsOf [("strings.ReplaceAll", ["\r\n", "\n"])] = none ∧
+    stepsOf [("io.ReadAll", []), ("bytes.ReplaceAll", ["\r\n", "\n"])] = some [.replaceAll "\r\n" "\n"] := by decide
 
 end Pandora.Props.C16
